@@ -104,8 +104,7 @@ theorem flushLoop_none (hC : EncContract C Dec) {bufsz : Nat} (hb : 0 < bufsz) {
       have hcl := hC.consumed_le rest1 bufsz Flush.none hR1 (hP _)
       have hend : (C.step cs1 rest1 bufsz Flush.none).res ≠ Res.streamEnd := by
         intro he
-        have := (hC.finish rest1 bufsz Flush.none hR1 (hP _) he).1
-        cases this
+        exact (hC.finish rest1 bufsz Flush.none hR1 (hP _) he).1 rfl
       have hkeep := hC.keep rest1 bufsz Flush.none hR1 (hP _) hend
       have hprog := hC.progress rest1 bufsz Flush.none hR1 (hP _) hb
         (Or.inl (by intro h; simp [h] at hne)) hend
@@ -917,7 +916,7 @@ def encContract (P : Params) : EncContract (encoder P) decode where
     by_cases hr : 0 < room
     · have hq := encQ_inv (P := P) inp fl hR
       change (encStep P s inp room fl).res = Res.streamEnd at he
-      show fl = Flush.full ∧ (encStep P s inp room fl).consumed = _ ∧ EncR (encStep P s inp room fl).st [] [] false ∧
+      show fl ≠ Flush.none ∧ (encStep P s inp room fl).consumed = _ ∧ EncR (encStep P s inp room fl).st [] [] false ∧
         (x ++ inp ≠ [] → decode (y ++ (encStep P s inp room fl).out) = some (x ++ inp))
       rw [encStep_eq P s inp room fl hr] at he ⊢
       split at he
@@ -932,7 +931,7 @@ def encContract (P : Params) : EncContract (encoder P) decode where
           · obtain ⟨h1, h2⟩ := hP (hR.2 h)
             exact ⟨h1, by rw [encN_fin h, h2]; rfl⟩
           · exact h
-        refine ⟨hfl.1, hfl.2, by simp [EncR, encBytes], ?_⟩
+        refine ⟨by rw [hfl.1]; simp, hfl.2, by simp [EncR, encBytes], ?_⟩
         intro _
         have htake : (encQ P s inp fl).take (encM P s inp room fl) = encQ P s inp fl := by
           have := List.take_append_drop (encM P s inp room fl) (encQ P s inp fl)
